@@ -742,6 +742,35 @@ def r15_9(rep, prog):
     if prog.config.split('+')[0] != 'float' and 'float' in CONFIGS['quick']:
         return 0            # source-level rule: once per run is enough
     root = compdb.REPO
+
+    def scan(rel, lines):
+        nb, out = 0, []
+        stack = []
+        for i, l in enumerate(lines, 1):
+            t = l.strip()
+            if _r.match(r'#\s*if', t):
+                pos = 'OPUS_CHECK_ASM' in t and not _r.search(r'ifndef|!\s*defined', t)
+                stack.append([i, pos, None])
+            elif _r.match(r'#\s*(else|elif)', t) and stack and stack[-1][2] is None:
+                stack[-1][2] = i
+            elif _r.match(r'#\s*endif', t) and stack:
+                st0 = stack.pop()
+                if st0[1]:
+                    nb += 1
+                    if st0[2]:
+                        body = [x.strip() for x in lines[st0[2]:i - 1] if x.strip() and not x.strip().startswith(('/*', '*', '//'))]
+                        code = [x for x in body if not _r.match(r'(silk_assert|celt_assert|celt_sig_assert)\s*\(', x)]
+                        if code:
+                            out.append((rel, st0[0], st0[2], code[0]))
+        return nb, out
+    # the scanner must recognise the construct it looks for (a fixed positive example, checked on every run: the expected
+    # count on the tree is zero, and a scanner that matches nothing would pass for ever)
+    probe = ['static int f(int a, int b)', '{', '#ifdef OPUS_CHECK_ASM', '   return c_formula(a, b);', '#else', '   t = (long long)a * b;', '   return t >> 16;', '#endif', '}',
+             '#ifdef OPUS_CHECK_ASM', '   celt_assert(x == y);', '#endif']
+    pn, pbad = scan('probe', probe)
+    if pn != 2 or len(pbad) != 1 or pbad[0][2] != 5:
+        rep.unresolved('R15.9', 'the conditional-block scanner does not recognise its own positive example (%d blocks, %s)' % (pn, pbad))
+        return 0
     nblocks = 0
     bad = []
     for pat in ('celt/**/*.[ch]', 'silk/**/*.[ch]'):
@@ -751,23 +780,9 @@ def r15_9(rep, prog):
                 lines = open(path, errors='replace').read().split('\n')
             except OSError:
                 continue
-            stack = []
-            for i, l in enumerate(lines, 1):
-                t = l.strip()
-                if _r.match(r'#\s*if', t):
-                    pos = 'OPUS_CHECK_ASM' in t and not _r.search(r'ifndef|!\s*defined', t)
-                    stack.append([i, pos, None])
-                elif _r.match(r'#\s*(else|elif)', t) and stack and stack[-1][2] is None:
-                    stack[-1][2] = i
-                elif _r.match(r'#\s*endif', t) and stack:
-                    st0 = stack.pop()
-                    if st0[1]:
-                        nblocks += 1
-                        if st0[2]:
-                            body = [x.strip() for x in lines[st0[2]:i - 1] if x.strip() and not x.strip().startswith(('/*', '*', '//'))]
-                            code = [x for x in body if not _r.match(r'(silk_assert|celt_assert|celt_sig_assert)\s*\(', x)]
-                            if code:
-                                bad.append((rel, st0[0], st0[2], code[0]))
+            nb, out = scan(rel, lines)
+            nblocks += nb
+            bad += out
     inst = '%s:the self-check option only adds comparisons, it never replaces shipped kernel arithmetic' % prog.config
     if nblocks < 10:
         rep.unresolved('R15.9', inst + ': only %d OPUS_CHECK_ASM blocks found' % nblocks)
